@@ -1212,6 +1212,8 @@ func runC03(c *core.Ctx) core.Meta {
 	checkSCCWidth(c, handlers)
 	checkBitSemantics(c, handlers)
 	checkClassCoverage(c, handlers)
+	checkPackedHalfSelection(c, handlers)
+	checkImmediateArithmeticWide(c, "R03.44", []string{emuPkg, cdna3Pkg}, 6, "A branch handler that multiplies in int16 sends far branches to the wrong address")
 	checkLoadWidths(c, handlers)
 	checkWideMultiply(c, handlers)
 
